@@ -45,10 +45,10 @@ def build_universe(ctx, rng, cands, n_each, deep=True):
     if deep and rng.random() < 0.4:
         # ids that went through dozens of incarnations: labels with two letters (3aa, 3ab ...)
         st = streams.build(rng, cands, k=3, n_each=(n_each[0] + 60, n_each[1] + 120), tagged=True,
-                           opts={'hot': 0.85, 'reuse_bias': 1.0, 'prompt_delete': 1.0, 'dead_mention': 0.3})
+                           opts={'hot': 0.85, 'reuse_bias': 1.0, 'prompt_delete': 1.0, 'dead_mention': 0.3, 'prefer_fixed': 0.3})
         ctx.count('universes_with_deep_incarnations')
     else:
-        st = streams.build(rng, cands, k=3, n_each=tuple(n_each), tagged=True, opts={'hot': rng.choice([0.08, 0.2]), 'dead_mention': 0.3})
+        st = streams.build(rng, cands, k=3, n_each=tuple(n_each), tagged=True, opts={'hot': rng.choice([0.08, 0.2]), 'dead_mention': 0.3, 'prefer_fixed': 0.35})
     s, probs = objcheck.run_stream(ctx, st, want=('C02', 'C03', 'C04'))
     if probs:
         ctx.inconc('universe stream is not attributed as the ground truth says (see C02/C04): %r' % (probs[0][:3],))
